@@ -31,7 +31,7 @@ ASSUMPTIONS = ["os-level events issued through Python are all seen by the audit 
                "'complete' = the file decompresses (with its .ch) to / equals the source bytes",
                "a failure is an exception raised while one chunk is being (de)compressed"]
 REQUIRED = {"compress_faults_injected": 20, "decompress_faults_injected": 20, "remove_events_judged": 4, "stale_bin_runs": 9, "twin_sync_selectors": 50, "twin_selectors": 200,
-            "roundtrips": 4, "entry_paths": 8, "twin_inconsistent_metadata": 3, "explicit_companions": 4, "silent_write_faults_injected": 20}
+            "roundtrips": 4, "entry_paths": 8, "twin_inconsistent_metadata": 3, "explicit_companions": 4, "silent_write_faults_injected": 20, "same_base_name_entries": 12}
 CASE_TIMEOUT = 200.0
 
 
@@ -515,6 +515,35 @@ def run_case(case):
                 sr.close()
             except Exception as e:
                 res.exception("entry:uuid-exception", e, lab)
+        # ---- two recordings with the same base name in one folder (dataset copies tagged with their own UUID, or one of them plain-named):
+        #      each file resolves ITS OWN companions, through the .bin / .cbin / .meta entry points
+        w = d / "twins-in-one-folder"
+        ua, ub = (str(uuid.UUID(bytes=rng.bytes(16), version=4)) for _ in range(2))
+        ns_b = ns + int(rng.integers(20, 300))
+        rec_b = G.make(rng, kind=kind, sites=rec.sites, ns=ns_b, gains=rec.gains)
+        order_b = np.r_[rec_b.order, rec_b.n]
+        cal_b = (rec_b.raw[:, order_b].astype(np.float32) * rec_b.s2v[order_b].astype(np.float32)[None, :])
+        name_a = f"run_g0_t0.imec0.ap.{ua}"
+        name_b = "run_g0_t0.imec0.ap" if rng.random() < 0.5 else f"run_g0_t0.imec0.ap.{ub}"
+        try:
+            for nm, rc in ((name_a, rec), (name_b, rec_b)):
+                bb = G.write(rc, w, name=nm)
+                srx = spikeglx.Reader(bb)
+                srx.compress_file(keep_original=True, chunk_duration=0.003)
+                srx.close()
+            for nm, rc, cl, nsx in ((name_a, rec, cal, ns), (name_b, rec_b, cal_b, ns_b)):
+                for suf in (".bin", ".cbin", ".meta"):
+                    path = w / (nm + suf)
+                    lab = f"{kind}: two recordings named {name_a[:24]}.. and {name_b[:24]}.. in one folder, Reader({path.name[-46:]})"
+                    sr = spikeglx.Reader(path)
+                    res.count("entry_paths")
+                    res.count("same_base_name_entries")
+                    okm = sr.file_meta_data == w / (nm + ".meta")
+                    res.check(okm and sr.shape == (nsx, rc.nc) and np.allclose(sr[:, :], cl, rtol=2.0 ** -22, atol=0), "entry:same-base-name:wrong-companion",
+                              f"{lab}: meta {getattr(sr.file_meta_data, 'name', None)}, shape {sr.shape} expected {(nsx, rc.nc)} - resolves to the other recording")
+                    sr.close()
+        except Exception as e:
+            res.exception("entry:same-base-name:exception", e, f"{kind}: {name_a} / {name_b}")
         nt = 1
         res.sig = f"entry-{kind}"
     res.nontrivial = nt > 0
